@@ -28,6 +28,7 @@ type coreGen struct {
 	fns       []string // functions that may be called (already generated)
 	nloop     int
 	nmatch    int
+	topCall   bool     // the next call generated is a statement of its own
 	bound     []string // names bound by the patterns of the match arms around the code being generated
 }
 
@@ -123,12 +124,15 @@ func (g *coreGen) call(d int) Node {
 	for i := range args {
 		args[i] = map[string]any(g.intExpr(d - 1))
 	}
-	if n >= 2 && !g.recursive && g.r.Intn(4) == 0 {
-		// a later argument changes a variable passed earlier: the earlier parameter keeps the value it had
+	if n >= 2 && !g.recursive && g.topCall {
+		// a later argument changes a variable passed earlier: the earlier parameter keeps the value it had.
+		// (Only in a call that is a statement of its own: as an operand, the variable could also be an earlier
+		// plain-variable operand of the enclosing expression, which is read only when its operator is applied.)
 		v := g.intVar()
 		args[0] = map[string]any(cn("var", "n", v))
 		args[1] = map[string]any(cn("inc", "n", v, "op", g.pick("++", "--"), "post", g.r.Intn(2) == 0))
 	}
+	g.topCall = false
 	return cn("call", "f", f, "args", args)
 }
 
@@ -298,6 +302,13 @@ func (g *coreGen) containerStmt(d int) Node {
 	case 2:
 		return ex(cn("asgidx", "n", g.pick("r0", "r1"), "key", map[string]any(g.arrIndex()), "op", g.pick("=", "=", "+=", "-="), "e", map[string]any(g.intExpr(1))))
 	case 3:
+		switch g.r.Intn(4) {
+		case 0:
+			// a member added through the other reference, or through a parameter: every reference sees it, also a later for-in
+			return ex(cn("asgidx", "n", "oa", "key", map[string]any(g.keyExpr()), "op", "=", "e", map[string]any(g.anyExpr(1))))
+		case 1:
+			return ex(cn("call", "f", "ak", "args", []any{map[string]any(cn("var", "n", g.pick("o0", "oa"))), map[string]any(cn("str", "v", g.pick(coreKeys...)))}))
+		}
 		return ex(cn("asgidx", "n", "o0", "key", map[string]any(g.keyExpr()), "op", g.pick("=", "=", "+="), "e", map[string]any(g.anyExpr(1))))
 	case 4, 5:
 		// the counting idiom of the README: cnt[key]++ on a variable that may not exist yet
@@ -320,7 +331,7 @@ func (g *coreGen) containerStmt(d int) Node {
 			args = append(args, map[string]any(cn("var", "n", v2)))
 		}
 		body["b"] = append([]any{map[string]any(cn("print", "args", args))}, body["b"].([]any)...)
-		it := g.pick("r0", "r1", "o0", "cnt", "s0")
+		it := g.pick("r0", "r1", "o0", "cnt", "s0", "oa", "o0")
 		if g.inRule && g.r.Intn(3) == 0 {
 			it = "$"
 		}
@@ -609,6 +620,7 @@ func (g *coreGen) stmt(d int) Node {
 			return cn("expr", "e", map[string]any(cn("inc", "n", t, "op", g.pick("++", "--"), "post", g.r.Intn(2) == 0)))
 		default:
 			if len(g.fns) > 0 {
+				g.topCall = g.r.Intn(3) == 0
 				return cn("expr", "e", map[string]any(g.call(2)))
 			}
 			return cn("print", "args", []any{map[string]any(g.intExpr(1))})
@@ -783,10 +795,15 @@ func (g *coreGen) program() Node {
 	stmts = append(stmts, map[string]any(cn("expr", "e", map[string]any(cn("asg", "n", "r0", "op", "=", "e", map[string]any(cn("arr", "items", []any{})))))))
 	stmts = append(stmts, map[string]any(cn("expr", "e", map[string]any(cn("asg", "n", "r1", "op", "=", "e", map[string]any(cn("arr", "items", []any{map[string]any(g.num(3)), map[string]any(cn("str", "v", "bc")), map[string]any(g.num(5))})))))))
 	stmts = append(stmts, map[string]any(cn("expr", "e", map[string]any(cn("asg", "n", "o0", "op", "=", "e", map[string]any(cn("obj", "keys", []any{"b", "a"}, "vals", []any{map[string]any(g.num(2)), map[string]any(cn("str", "v", "Zq"))})))))))
+	// oa is a second reference to the object o0 (objects are shared; arrays are not aliased here: alias-length)
+	stmts = append(stmts, map[string]any(cn("expr", "e", map[string]any(cn("asg", "n", "oa", "op", "=", "e", map[string]any(cn("var", "n", "o0")))))))
 	n := 1 + g.r.Intn(4)
 	for i := 0; i < n; i++ {
 		stmts = append(stmts, map[string]any(g.stmt(3)))
 	}
+	// ak adds a member through its parameter
+	fns = append(fns, map[string]any(cn("fn", "name", "ak", "params", []any{"o", "k"}, "body",
+		map[string]any(cn("block", "b", []any{map[string]any(cn("expr", "e", map[string]any(cn("asgidx", "n", "o", "key", map[string]any(cn("var", "n", "k")), "op", "=", "e", map[string]any(cn("num", "v", 7))))))})))))
 	// hr returns the global h0 as a bare variable, hb assigns it: in hr() + hb(..) the left value is what hr returned
 	fns = append(fns, map[string]any(cn("fn", "name", "hr", "params", []any{}, "body",
 		map[string]any(cn("block", "b", []any{map[string]any(cn("return", "e", map[string]any(cn("var", "n", "h0"))))})))))
